@@ -228,7 +228,31 @@ pub fn apdu(inp: &Value) -> R<Value> {
         }
         Err(_) => obs["framed"] == json!(false) || wire.len() > 7609,
     };
-    obs["same_owned"] = json!(same_owned);
+    // ... and owned commands of smaller capacities, down to the one the data fills exactly: the
+    // outcome is a function of the APDU, not of the capacity of the object that carries it
+    let data_len = match iso7816::command::CommandView::try_from(wire.as_slice()) { Ok(v) => Some(v.data().len()), Err(_) => None };
+    let mut same_caps = true;
+    let mut exact_fit = false;
+    macro_rules! cap {
+        ($($n:literal),*) => {$(
+            if let Some(l) = data_len {
+                if l <= $n {
+                    if l == $n { exact_fit = true; }
+                    match iso7816::Command::<$n>::try_from(wire.as_slice()) {
+                        Ok(cmd) => {
+                            let o2 = proj_ctap1(&ctap1::Request::try_from(&cmd), None);
+                            if !(o2["ok"] == obs["ok"] && o2["sw"] == obs["sw"] && o2["req"] == obs["req"]) { same_caps = false; }
+                        }
+                        Err(_) => same_caps = false,
+                    }
+                }
+            }
+        )*};
+    }
+    cap!(0, 1, 2, 3, 4, 5, 9, 32, 33, 63, 64, 65, 66, 67, 68, 69, 70, 80, 81, 96, 97, 128, 129, 130, 192, 193, 254, 255, 256, 257,
+         258, 319, 320, 321, 322, 512, 1024, 2048);
+    let _ = exact_fit;
+    obs["same_owned"] = json!(same_owned && same_caps);
     Ok(obs)
 }
 
